@@ -1025,10 +1025,91 @@ fn struct_eval(
 // replay / check
 // ------------------------------------------------------------------------------------------------
 
+// ------------------------------------------------------------------------------------------------
+// (c) characters around the URL: the URL standard strips C0 controls and space from both ends
+// before parsing ("the normalised URL"), and nothing else
+// ------------------------------------------------------------------------------------------------
+
+const WRAP_STRIP: [&str; 13] = ["", "\0", "\u{1}", "\u{8}", "\t", "\n", "\u{b}", "\u{c}", "\r", "\u{e}", "\u{1b}", "\u{1f}", " "];
+/// not stripped although some library notions of "whitespace" or "control" include them
+const WRAP_KEEP: [&str; 5] = ["\u{7f}", "\u{85}", "\u{a0}", "\u{2028}", "\u{3000}"];
+const WRAP_URLS: [&str; 6] = [
+    "https://example.com/x",
+    "wss://sub.example.co.uk",
+    "http://a.b.example.com:8080/p?q=1#f",
+    "https://b\u{fc}cher.de/",
+    "ftp://example.com/",
+    "https://u:p@example.org/a b",
+];
+
+fn wrap_mismatch(l: &mut Local, clause: &str, what: String, i: u64) {
+    l.mismatch(Mismatch { sig: format!("c12.wrap.{}", clause), what, case: json!({"kind": "wrap", "i": i}), size: i });
+}
+
+fn wrap_case(i: u64, l: &mut Local) {
+    let n = WRAP_STRIP.len() as u64;
+    let (a, b, c, u) = ((i % n) as usize, (i / n % n) as usize, (i / n / n % n) as usize, (i / n / n / n) as usize % WRAP_URLS.len());
+    let plain = WRAP_URLS[u];
+    // two leading characters, one trailing
+    let wrapped = format!("{}{}{}{}", WRAP_STRIP[a], WRAP_STRIP[b], plain, WRAP_STRIP[c]);
+    l.evaluations += 1;
+    for ty in ["script", "document"] {
+        // as request URL
+        l.transitions += 1;
+        match (catch(|| Request::new(plain, FIXED_SRC, ty)), catch(|| Request::new(&wrapped, FIXED_SRC, ty))) {
+            (Ok(Ok(r0)), Ok(Ok(r1))) => {
+                l.compared += 1;
+                l.nontrivial += 1;
+                l.hist("wrap:url-ok");
+                if let Some(f) = field_diff(&r0, &r1) {
+                    wrap_mismatch(l, &format!("url.{}", f), format!("{:?} and {:?} differ only by stripped characters but the requests differ on {}", plain, wrapped, f), i);
+                }
+            }
+            (Ok(Ok(_)), Ok(Err(_))) => wrap_mismatch(l, "url.rejected", format!("{:?} parses but {:?} is rejected", plain, wrapped), i),
+            (Ok(Ok(_)), Err(loc)) => wrap_mismatch(l, &format!("panic@{}", loc), format!("Request::new({:?}) panicked", wrapped), i),
+            _ => {
+                eprintln!("machinery: wrap URL {:?} is not accepted", plain);
+                l.hist("wrap:MACHINERY");
+            }
+        }
+        // as source URL
+        l.transitions += 1;
+        match (catch(|| Request::new(FIXED_URL, plain, ty)), catch(|| Request::new(FIXED_URL, &wrapped, ty))) {
+            (Ok(Ok(r0)), Ok(Ok(r1))) => {
+                l.compared += 1;
+                l.hist("wrap:source-ok");
+                if let Some(f) = field_diff(&r0, &r1) {
+                    wrap_mismatch(l, &format!("source.{}", f), format!("sources {:?} and {:?} differ only by stripped characters but the requests differ on {}", plain, wrapped, f), i);
+                }
+            }
+            (_, Err(loc)) => wrap_mismatch(l, &format!("panic@{}", loc), format!("Request::new(.., {:?}) panicked", wrapped), i),
+            _ => wrap_mismatch(l, "source.rejected", format!("source {:?}: request rejected", wrapped), i),
+        }
+    }
+    // a leading character outside C0-or-space is not stripped: the string has no scheme
+    if b == 0 && c == 0 && a < WRAP_KEEP.len() {
+        let kept = format!("{}{}", WRAP_KEEP[a], plain);
+        l.transitions += 2;
+        l.compared += 2;
+        match catch(|| Request::new(&kept, FIXED_SRC, "script")) {
+            Ok(Err(_)) => l.hist("wrap:kept-char-rejected"),
+            Ok(Ok(r)) => wrap_mismatch(l, "kept-char-stripped", format!("{:?} does not start with a scheme but is accepted as {:?}", kept, r.url), i),
+            Err(loc) => wrap_mismatch(l, &format!("panic@{}", loc), format!("Request::new({:?}) panicked", kept), i),
+        }
+        match catch(|| Request::new(FIXED_URL, &kept, "script")) {
+            Ok(Ok(r)) if r.is_third_party && r.source_hostname_hashes.is_none() => l.hist("wrap:kept-char-source-unparseable"),
+            Ok(Ok(r)) => wrap_mismatch(l, "kept-char-stripped", format!("source {:?} has no scheme but third_party={} hashes={:?}", kept, r.is_third_party, r.source_hostname_hashes.is_some()), i),
+            Ok(Err(_)) => wrap_mismatch(l, "source.rejected", format!("source {:?}: request rejected", kept), i),
+            Err(loc) => wrap_mismatch(l, &format!("panic@{}", loc), format!("Request::new(.., {:?}) panicked", kept), i),
+        }
+    }
+}
+
 fn replay(case: &Value, l: &mut Local) {
     let g = |k: &str| case.get(k).and_then(|v| v.as_str()).unwrap_or("").to_string();
     match case["kind"].as_str().unwrap_or("") {
         "total" => total_case(&g("s"), l),
+        "wrap" => wrap_case(case["i"].as_u64().unwrap_or(0), l),
         _ => {
             let (scheme, slashes, userinfo, host, port, path) = (g("scheme"), g("slashes"), g("userinfo"), g("host"), g("port"), g("path"));
             let p = Parts { scheme: &scheme, slashes: &slashes, userinfo: &userinfo, host: &host, port: &port, path: &path };
@@ -1149,9 +1230,15 @@ fn check(ctx: &Ctx) -> i32 {
         struct_url(&p, hi, &inits, types, l);
     });
 
+    let nw = (WRAP_STRIP.len() as u64).pow(3) * WRAP_URLS.len() as u64;
+    ctx.bound("wrap_characters_stripped", json!(WRAP_STRIP));
+    ctx.bound("wrap_characters_kept", json!(WRAP_KEEP));
+    ctx.bound("wrap_urls", json!(WRAP_URLS));
+    ctx.par_range("wrapped", nw, 64, |i, l| wrap_case(i, l));
+
     ctx.finish(
         "model_checking",
-        "(a) every string of length <= n over 18 symbols behind 6 prefixes through parse_url and Request::new as url / source / both: no panic, internal consistency; (b) scheme x slashes x userinfo x 48 hosts x port x path, each against every initiator (every host of the list, absent, 7 host-less spellings) and every type: hostname vs url crate / idna, party vs eTLD+1 from the public-suffix data, scheme flags, websocket type, source hashes, preparsed == new on fields and on a 10-rule engine, idempotence. Non-trivial = party verdict compared with an initiator that has a host (structured), or a parseable string checked first-party to itself (totality). states = requests built, transitions = constructor calls + engine queries, traces_validated = oracle comparisons",
+        "(a) every string of length <= n over 18 symbols behind 6 prefixes through parse_url and Request::new as url / source / both: no panic, internal consistency; (b) scheme x slashes x userinfo x 48 hosts x port x path, each against every initiator (every host of the list, absent, 7 host-less spellings) and every type: hostname vs url crate / idna, party vs eTLD+1 from the public-suffix data, scheme flags, websocket type, source hashes, preparsed == new on fields and on a 10-rule engine, idempotence; (c) 6 URLs wrapped in every (two leading, one trailing) combination of 12 C0-control-or-space characters, as request URL and as source URL x 2 types: every public field equals that of the unwrapped URL, and 5 leading characters outside that class (DEL, NEL, NBSP, LS, ideographic space) are not stripped. Non-trivial = party verdict compared with an initiator that has a host (structured), or a parseable string checked first-party to itself (totality). states = requests built, transitions = constructor calls + engine queries, traces_validated = oracle comparisons",
         &[
             "the url crate (WHATWG) is the oracle for host extraction where it leaves the host text alone; idna::domain_to_ascii for non-ASCII hosts",
             "public-suffix data of the psl crate is shared with the subject; the eTLD+1 computation on top of it is independent (parse_dns_name + label arithmetic)",
